@@ -54,14 +54,15 @@ type c13Op struct {
 func (o c13Op) String() string {
 	switch o.Kind {
 	case 0:
-		return fmt.Sprintf("def(l%d,%c)", o.Local, "ABCD"[o.Variant])
+		return fmt.Sprintf("def(l%d,%c)", o.Local, "ABCDEF"[o.Variant])
 	case 1:
 		return fmt.Sprintf("data(l%d)", o.Local)
 	}
 	return fmt.Sprintf("cdata(l%d)", o.Local)
 }
 
-// variants: A record little-endian, B record big-endian (other fields/sizes/order), C device_info, D unknown message
+// variants: A record little-endian, B record big-endian (other fields/sizes/order), C device_info, D unknown message,
+// E = the file_id definition (prefix only), F record with an empty field list
 func c13Def(v int, local byte) fitmodel.Def {
 	switch v {
 	case 0:
@@ -72,6 +73,8 @@ func c13Def(v int, local byte) fitmodel.Def {
 		return fitmodel.Def{Local: local, Global: 23, Fields: []fitmodel.FieldDef{{Num: 3, Size: 4, Base: fitmodel.Uint32z}, {Num: 2, Size: 2, Base: fitmodel.Uint16}}}
 	case 4: // file_id definition (prefix only)
 		return fitmodel.FileIdDef(local, false)
+	case 5: // record with an empty field list (a data record then is just its header)
+		return fitmodel.Def{Local: local, Global: 20}
 	}
 	return fitmodel.Def{Local: local, Global: 0xFF00, Fields: []fitmodel.FieldDef{{Num: 0, Size: 3, Base: fitmodel.Byte}, {Num: 1, Size: 2, Base: fitmodel.Uint16}}}
 }
@@ -231,7 +234,7 @@ func c13Alphabet(locals []byte) []c13Op {
 		}
 	}
 	for _, l := range locals {
-		for v := 0; v < 4; v++ {
+		for _, v := range []int{0, 1, 2, 3, 5} {
 			a = append(a, c13Op{Kind: 0, Local: l, Variant: v})
 		}
 	}
@@ -250,7 +253,7 @@ func init() {
 	vx.Register(&vx.Prop{
 		ID:    "C13",
 		Level: "model_checking",
-		Rule: "slot machine model (16 local types, each undefined or holding one of 4 definition variants: record little-endian, record big-endian with other fields/sizes/order, device_info, an unknown message) explored two ways on the real decoder: (1) all words of length <=4 (quick) / <=5 (thorough) over {data(l), compressed data(l<=3), define(l,v)} for locals {0,1,3,4,15}, x 4 ways of writing the file_id record (local 0 / local 2, normal / compressed header); (2) breadth-first search over all reachable model slot states with a shortest witness each, every one-step extension followed by a probe of every defined slot (and one undefined slot), replayed on a fresh decoder; plus all 16 locals x variants at depth 2. " +
+		Rule: "slot machine model (16 local types, each undefined or holding one of 5 definition variants: record little-endian, record big-endian with other fields/sizes/order, device_info, an unknown message, record with an empty field list) explored two ways on the real decoder: (1) all words of length <=4 (quick) / <=5 (thorough) over {data(l), compressed data(l<=3), define(l,v)} for locals {0,1,3,4,15}, x 4 ways of writing the file_id record (local 0 / local 2, normal / compressed header); (2) breadth-first search over all reachable model slot states with a shortest witness each, every one-step extension followed by a probe of every defined slot (and one undefined slot), replayed on a fresh decoder; plus all 16 locals x variants at depth 2. " +
 			"Oracle: each data record decodes under the latest definition of its slot (values via the C02 model), other slots unaffected, undefined slot => error with the earlier records kept. states/transitions = model states and extensions; traces = streams decoded",
 		Assumptions: []string{"streams carry no timestamp fields, so compressed headers do not alter content (timestamps are C12's subject)"},
 		Run:         runC13,
@@ -399,7 +402,7 @@ func runC13(w *vx.W) {
 	// (3) all 16 locals at depth 2: define(l,v) data(l') for all l,l'
 	var k int64
 	for l := 0; l < 16; l++ {
-		for v := 0; v < 4; v++ {
+		for _, v := range []int{0, 1, 2, 3, 5} {
 			for l2 := 0; l2 < 16; l2++ {
 				for kind := 1; kind <= 2; kind++ {
 					if kind == 2 && l2 > 3 {
@@ -409,7 +412,7 @@ func runC13(w *vx.W) {
 					if !w.Mine(k) {
 						continue
 					}
-					word := []c13Op{{Kind: 0, Local: byte(l), Variant: v}, {Kind: kind, Local: byte(l2)}, {Kind: 0, Local: byte(l2), Variant: (v + 1) % 4}, {Kind: kind, Local: byte(l2)}, {Kind: 1, Local: byte(l)}}
+					word := []c13Op{{Kind: 0, Local: byte(l), Variant: v}, {Kind: kind, Local: byte(l2)}, {Kind: 0, Local: byte(l2), Variant: []int{1, 2, 3, 5, 5, 0}[v]}, {Kind: kind, Local: byte(l2)}, {Kind: 1, Local: byte(l)}}
 					stream, msg := c13Run(0, word)
 					w.Eval(1)
 					w.Trace(1)
